@@ -13,6 +13,7 @@ class RunLoop:
             raise AnalysisBroken('Interpreter::Run vanished')
         self.f = f
         self.r = Renderer(f, inline_locals=False)
+        ri = Renderer(f, inline_locals=True)      # conditions may go through a named temporary
         top = f['body'].get('body', [])
         loops = [n for n in top if n.get('k') == 'for']
         if len(loops) != 1:
@@ -27,7 +28,7 @@ class RunLoop:
             t = r.s(st)
             name = None
             if st.get('k') == 'if':
-                c = r.r(st.get('cond'))
+                c = ri.r(st.get('cond'))
                 if c == 'f:Teakra::Interpreter::idle':
                     name = 'idle'
                 elif c == REGS + 'rep)':
